@@ -1,18 +1,18 @@
 #!/bin/bash
 # Confirms a seeded change in its scratch worktree:
 #   compiles, full suite passes, demo fails with the change, demo passes without it.
-# usage: seed_verify.sh <worktree> <mN>     result -> <worktree>/out/<mN>/verify.txt
-W=$1; M=$2; O=$W/out/$M
+# usage: seed_verify.sh <worktree> <mN> [feature for the demo build, e.g. verif]     result -> <worktree>/out/<mN>/verify.txt
+W=$1; M=$2; O=$W/out/$M; FEAT=${3:+--features $3}
 export GIT_CONFIG_COUNT=1 GIT_CONFIG_KEY_0=init.defaultBranch GIT_CONFIG_VALUE_0=master CARGO_NET_OFFLINE=true
 cd "$W" || exit 2
 git checkout -q -- src
 {
   echo "== apply"; git apply "$O/patch.diff" && echo applied-ok
-  echo "== build"; cargo build --offline 2>&1 | tail -1
   echo "== suite"; cargo nextest run --workspace --no-fail-fast --test-threads 4 --offline 2>&1 | grep -E "Summary|FAIL" | head -5
+  echo "== build (after the suite: the suite rebuilds the binary without the feature)"; cargo build --offline $FEAT 2>&1 | tail -1
   echo "== demo with change"; (if [ -f "$O/demo.sh" ]; then bash "$O/demo.sh" > "$O/verify_with.log" 2>&1; echo "exit=$?"; else echo "no demo.sh"; fi)
   git checkout -q -- src
-  echo "== rebuild clean"; cargo build --offline 2>&1 | tail -1
+  echo "== rebuild clean"; cargo build --offline $FEAT 2>&1 | tail -1
   echo "== demo without change"; (if [ -f "$O/demo.sh" ]; then bash "$O/demo.sh" > "$O/verify_without.log" 2>&1; echo "exit=$?"; fi)
 } > "$O/verify.txt" 2>&1
 git status --short src | head -3 >> "$O/verify.txt"
